@@ -540,11 +540,37 @@ func dropSigner(u *ucase, c *x509.Certificate) {
 	u.signers = r
 }
 
+// predCertAt: the predecessor certificate named by vote number k, nil when there is no such vote,
+// no predecessor, or the vote is out of range (mutators compose, so any of these can happen).
+func predCertAt(u *ucase, k int) *x509.Certificate {
+	if u.pred == nil || k < 0 || k >= len(u.t.Votes) {
+		return nil
+	}
+	if v := u.t.Votes[k]; v >= 0 && v < len(u.pred.Certificates) {
+		return u.pred.Certificates[v]
+	}
+	return nil
+}
+
+// apply runs a mutator; a panic inside a mutator (a generator bug, never a verdict about the code
+// under test) is counted and the mutation abandoned — the case is still a legitimate input.
+func apply(e *vlib.Env, name string, f func()) {
+	defer func() {
+		if r := recover(); r != nil {
+			n, _ := e.Extra["generator_panics"].(int)
+			e.Extra["generator_panics"] = n + 1
+			e.Extra["generator_panic_last"] = fmt.Sprintf("%s: %v", name, r)
+		}
+	}()
+	f()
+}
+
 func (w *world) otherClassIdx(u *ucase) int { // index in pred of a voter of the class that is NOT voting
-	if len(u.t.Votes) == 0 || u.pred == nil || u.t.Votes[0] < 0 || u.t.Votes[0] >= len(u.pred.Certificates) {
+	v0 := predCertAt(u, 0)
+	if v0 == nil {
 		return -1
 	}
-	k := kindOf(u.pred.Certificates[u.t.Votes[0]])
+	k := kindOf(v0)
 	want := cppki.Sensitive
 	if k == cppki.Sensitive {
 		want = cppki.Regular
@@ -565,8 +591,8 @@ var umuts = []umut{
 		}
 	}},
 	{"dup-vote-replacing", func(w *world, u *ucase) { // same count, one voter twice instead of another
-		if n := len(u.t.Votes); n > 1 && u.pred != nil && u.t.Votes[1] >= 0 && u.t.Votes[1] < len(u.pred.Certificates) {
-			dropSigner(u, u.pred.Certificates[u.t.Votes[1]])
+		if c := predCertAt(u, 1); c != nil {
+			dropSigner(u, c)
 			u.t.Votes[1] = u.t.Votes[0]
 		}
 	}},
@@ -620,7 +646,10 @@ var umuts = []umut{
 			if len(sis) > 0 {
 				i := w.r.Intn(len(sis))
 				sig := append([]byte(nil), sis[i].Signature...)
-				sig[len(sig)-1-w.r.Intn(8)] ^= 1 << uint(w.r.Intn(8))
+				if len(sig) == 0 {
+					return sis
+				}
+				sig[len(sig)-1-w.r.Intn(min(8, len(sig)))] ^= 1 << uint(w.r.Intn(8))
 				sis[i].Signature = sig
 			}
 			return sis
@@ -787,7 +816,7 @@ var umuts = []umut{
 		for _, v := range u.t.Votes {
 			voted = voted || v == i
 		}
-		if !voted && len(u.t.Votes) > 0 && kindOf(u.pred.Certificates[u.t.Votes[0]]) == cppki.Regular {
+		if v0 := predCertAt(u, 0); !voted && v0 != nil && kindOf(v0) == cppki.Regular {
 			u.t.Votes = append(u.t.Votes, i)
 			u.signers = append(u.signers, u.pred.Certificates[i])
 		}
@@ -860,7 +889,7 @@ func runC32(e *vlib.Env, w *world) {
 	for _, m := range umuts {
 		for i := 0; i < per; i++ {
 			u := mk()
-			m.f(w, u)
+			apply(e, m.name, func() { m.f(w, u) })
 			u.notes = append(u.notes, m.name)
 			w.runCase(e, u)
 		}
@@ -869,7 +898,7 @@ func runC32(e *vlib.Env, w *world) {
 		u := mk()
 		for k := 0; k < 2; k++ {
 			m := umuts[w.r.Intn(len(umuts))]
-			m.f(w, u)
+			apply(e, m.name, func() { m.f(w, u) })
 			u.notes = append(u.notes, m.name)
 		}
 		w.runCase(e, u)
